@@ -152,6 +152,23 @@ Step(s, ins, i) ==
                            IF b.cls \in {"qubit", "qreg"} THEN [Use(st, n) EXCEPT !.need = AddN(@, "IncompatibleTypesError", 1, 1)] ELSE Use(st, n)
          IN CloseSingles(PushKind(q(ins.r, q(ins.l, s)), "exprstmt"))
     [] ins.op = "litstmt" -> CloseSingles(PushKind(s, "exprstmt"))
+    (* an indexed identifier: the name (and a name inside the brackets) is used; as reset / measure operand it must be a    *)
+    (* qubit register; as assignment target the rules of an assignment apply                                               *)
+    [] ins.op = "ix" ->
+         LET b == Resolve(s, ins.n)
+             s1 == Use(s, ins.n)
+             s2 == IF ins.ix = "n" THEN Use(s1, ins.x) ELSE s1
+             s3 == CASE ins.role \in {"reset", "measure"} ->
+                          (IF b.ord = -1 THEN [s2 EXCEPT !.need = AddN(@, "IncompatibleTypesError", 0, 1)]
+                           ELSE IF b.cls = "qreg" THEN s2
+                           ELSE [s2 EXCEPT !.need = AddN(@, "IncompatibleTypesError", 1, 1)])
+                     [] ins.role = "lhs" ->
+                          (CASE b.ord = -1 -> s2
+                             [] b.cls = "const" -> [s2 EXCEPT !.need = AddN(@, "MutateConstError", 1, 1)]
+                             [] b.cls = "var" -> s2
+                             [] OTHER -> [s2 EXCEPT !.need = AddN(@, "MutateConstError", 0, 1)])
+                     [] OTHER -> s2
+         IN CloseSingles(PushKind(s3, CASE ins.role = "reset" -> "reset" [] ins.role = "lhs" -> "assign" [] OTHER -> "exprstmt"))
     [] ins.op = "reset" -> CloseSingles(PushKind(UseOperands(s, <<ins.n>>), "reset"))
     [] ins.op = "barrier" -> CloseSingles(PushKind(UseOperands(s, ins.qs), "barrier"))
     [] ins.op = "delay" -> CloseSingles(PushKind(UseOperands(s, ins.qs), "delay"))
